@@ -380,7 +380,8 @@ def scenario_cross(rng):
             x = [h.split(" ")[2] for h in holds if h.split(" ")[1] in ("sub", "leave")]
             out.append(f"drop {rng.choice(x) if x else 'S2'}")
         if rng.chance(3, 4):
-            out.append("hubstep")
+            # (one time in three the topic's goroutine takes the queued publishes while the hub waits for the database)
+            out.append("hubstep yield" if killer.startswith("deltopic") and rng.chance(1, 3) else "hubstep")
         for _ in range(rng.below(5)):
             out.append(f"tstep {T} {rng.choice(['reg', 'unreg', 'pub', 'exit', 'exit', 'reg'])}")
         # whatever is left is taken one message at a time too (a step which finds its queue empty says so and does nothing), so that
